@@ -155,6 +155,28 @@ def _sites():
     s_named_unclaim_postings_found_and_missing = _named_claim('raw_postings_with_comments', 'unclaim_interleaving_comments', True)
     del _named_claim
 
+    def _loose_comment(how):
+        """An unowned comment of the document handed to a single-value mutator: refused, and still unowned afterwards."""
+        def site(f, g):
+            h = edits.P().parse('2000-01-01 open Assets:A\n    ; about\n2000-01-02 close Assets:A\n    kk: 1\n', models.File, auto_claim_comments=False)
+            c = [x for x in h.token_store if isinstance(x, models.BlockComment)][0]
+            yield h
+            try:
+                if how == 'slot':
+                    h.raw_directives[1].raw_leading_comment = c
+                elif how == 'append':
+                    h.raw_directives[1].raw_meta_with_comments.append(c)
+                else:
+                    h.raw_directives[1].raw_meta_with_comments[0] = c
+            finally:
+                if c.claimed:
+                    raise AssertionError('the refused comment is flagged claimed now, and nobody owns it')
+        return site
+    s_loose_comment_into_slot = _loose_comment('slot')
+    s_loose_comment_appended = _loose_comment('append')
+    s_loose_comment_setitem = _loose_comment('setitem')
+    del _loose_comment
+
     # nodes that touch exactly one end of the store they live in (a batch pre-check that looks at one end only lets them pass)
     def s_slice_last_meta_of_free_posting(f, g):
         donor = models.Posting.from_value('Assets:Z', decimal.Decimal(1), 'USD', meta={'kk': decimal.Decimal(1), 'jj': 'x'})
@@ -245,7 +267,8 @@ MUST_REFUSE = {'claim_foreign', 'unclaim_foreign', 'claim_claimed', 'cost_illega
                'values_bool_date_then_attached', 'values_own_item_twice', 'slice_last_meta_of_free_posting',
                'view_slice_last_directive_of_other_file', 'extend_last_directive_of_other_file', 'append_last_directive_of_other_file',
                'slot_first_token_of_other_model', 'slot_number_at_start_of_free_amount', 'named_claim_meta_found_and_missing',
-               'named_claim_postings_found_and_missing', 'named_unclaim_meta_found_and_missing', 'named_unclaim_postings_found_and_missing'}
+               'named_claim_postings_found_and_missing', 'named_unclaim_meta_found_and_missing', 'named_unclaim_postings_found_and_missing',
+               'loose_comment_into_slot', 'loose_comment_appended', 'loose_comment_setitem'}
 
 
 def run(ctx):
